@@ -148,6 +148,10 @@ func JudgeC16(c *Ctx, h *History, obs []*Obs) ([]Violation, error) {
 			sfx = "/stale-output-without-package-clause"
 			c.Stats.Add("c16.gens_over_output_without_package_clause", 1)
 		}
+		if hasNulBody(o, tags) {
+			// known finding F20: go/build refuses files with NUL bytes whatever their constraint
+			sfx = "/stale-output-with-nul-bytes"
+		}
 		if g.Expect == "ok" && o.Exit != 0 {
 			c.Stats.Add("c16.recoveries_checked", 1)
 			out = append(out, Violation{Property: "C16", Class: "regeneration-blocked" + sfx, OpIndex: o.OpIndex,
